@@ -156,7 +156,7 @@ func loadProgram(repo, pkgKey, prop string) (*Program, error) {
 // parseDirectives reads //vf: lines from a harness function's doc comment.
 func parseDirectives(doc *ast.CommentGroup, tier string) *Config {
 	cfg := &Config{Unwind: 8, MaxSteps: 2000000, MaxAlloc: 4096, MaxConcretize: 16, MaxPaths: 50000,
-		Timeout: 30 * time.Second, Overrides: map[string]string{}, Switches: 2, Bounds: map[string]string{}}
+		Timeout: 30 * time.Second, Overrides: map[string]string{}, Switches: 2, MaxTicks: 2, Bounds: map[string]string{}}
 	if tier == "thorough" {
 		cfg.Timeout = 120 * time.Second
 		cfg.MaxPaths = 400000
@@ -233,6 +233,9 @@ func parseDirectives(doc *ast.CommentGroup, tier string) *Config {
 		case "numtokens":
 			cfg.NumTokens = true
 			cfg.Stubs = append(cfg.Stubs, "decimal formatting/parsing of symbolic integers (fmt %d / strconv.ParseUint) -> inverse pair on an opaque number token (the digit codec is trusted)")
+		case "ticks":
+			cfg.MaxTicks, _ = strconv.Atoi(val)
+			cfg.Bounds["ticker firings"] = val
 		case "lazyfp":
 			cfg.LazyFP = true
 			cfg.Bounds["float branches"] = "not pruned during exploration (both sides explored); every verdict query carries the full path condition"
